@@ -213,7 +213,12 @@ def run_impl(family, cases, shards=16, timeout=1700, env=None):
     results = [None] * len(procs)
 
     def work(i, p, data):
-        results[i] = p.communicate(data.encode(), timeout=timeout)
+        try:
+            results[i] = p.communicate(data.encode(), timeout=min(timeout, 240 + len(data) // 20000))
+        except subprocess.TimeoutExpired:
+            p.kill()
+            p.communicate()
+            results[i] = None
 
     ths = [threading.Thread(target=work, args=(i, p, d)) for i, (p, d) in enumerate(procs)]
     for t in ths:
@@ -221,11 +226,11 @@ def run_impl(family, cases, shards=16, timeout=1700, env=None):
     for t in ths:
         t.join()
     for i, (p, _) in enumerate(procs):
-        so, se = results[i]
-        if p.returncode != 0:
-            # the implementation died (abort, stack overflow, ...): find the case(s) one by one
+        if results[i] is None or p.returncode != 0:
+            # the implementation died or hung (abort, stack overflow, endless loop): find the case(s) one by one
             outs.append([run_impl_single(family, c, env or ENV) for c in chunks[i]])
             continue
+        so, se = results[i]
         lines = [l for l in so.decode("utf-8").split("\n") if l.strip()]
         if len(lines) != len(chunks[i]):
             raise InfraError("slt-impl %s: %d results for %d cases" % (family, len(lines), len(chunks[i])))
@@ -238,8 +243,12 @@ def run_impl(family, cases, shards=16, timeout=1700, env=None):
 
 
 def run_impl_single(family, case, env):
-    p = subprocess.run([IMPL, family], input=(json.dumps(case) + "\n").encode(), stdout=subprocess.PIPE,
-                       stderr=subprocess.PIPE, env=env, timeout=600)
+    try:
+        p = subprocess.run([IMPL, family], input=(json.dumps(case) + "\n").encode(), stdout=subprocess.PIPE,
+                           stderr=subprocess.PIPE, env=env, timeout=20)
+    except subprocess.TimeoutExpired:
+        return {"panic": "the implementation did not terminate within 20 s on this case (endless loop / hang)",
+                "parse": ["panic"], "final": ["panic"], "events": [], "fs": [], "glob": [], "update1": ["hang"], "listing1": [], "events1": []}
     if p.returncode != 0:
         return {"panic": "process died with status %s (abort / stack overflow / signal)" % p.returncode,
                 "parse": ["panic"], "final": ["panic"], "events": [], "fs": [], "glob": []}
